@@ -31,6 +31,17 @@ except ValueError:
     ENV_MAX_DEPTH = 150  # Fallback to 150 if env var is invalid
 
 
+def _registered_under_sanitised_name(raw_name: str, context: ParsingContext) -> IRSchema | None:
+    """The finished schema of components/schemas/<raw_name> when it is registered under its sanitised class name."""
+    sanitised = NameSanitizer.sanitize_class_name(raw_name)
+    if sanitised == raw_name or sanitised in context.raw_spec_schemas:
+        return None  # the sanitised key belongs (or may belong) to another declared schema
+    candidate = context.parsed_schemas.get(sanitised)
+    if candidate is None or candidate._is_circular_ref or candidate._from_unresolved_ref:
+        return None
+    return candidate
+
+
 def _resolve_ref(
     ref_path_str: str,
     parent_schema_name: str | None,  # Name of the schema containing this $ref
@@ -53,6 +64,13 @@ def _resolve_ref(
     ref_name = ref_name_parts[-1]
 
     # 1. Check if already parsed (fully or as a placeholder)
+    # Finished schemas are registered under their sanitised class name ("pet" -> "Pet"): look there too, otherwise a
+    # second reference to an already parsed schema with a non-PascalCase name parses it again and registers a duplicate.
+    if ref_name not in context.parsed_schemas:
+        registered = _registered_under_sanitised_name(ref_name, context)
+        if registered is not None and not registered._max_depth_exceeded_marker:
+            return registered
+
     if ref_name in context.parsed_schemas and not context.parsed_schemas[ref_name]._max_depth_exceeded_marker:
         # Re-using already parsed schema from context
         return context.parsed_schemas[ref_name]
@@ -463,6 +481,9 @@ def _parse_schema(
             existing_schema = context.parsed_schemas.get(schema_name)
             if existing_schema:
                 return existing_schema
+            existing_schema = _registered_under_sanitised_name(schema_name, context)
+            if existing_schema:
+                return existing_schema
             # If schema marked as existing but not found anywhere, it might be a state management issue
             # Reset the state and continue with normal parsing
             from .unified_cycle_detection import SchemaState
@@ -484,7 +505,7 @@ def _parse_schema(
 
     elif detection_result.action == CycleAction.CREATE_PLACEHOLDER:
         # Cycle or depth limit detected - return the created placeholder
-        context.unified_exit_schema(schema_name)  # Balance the enter call
+        context.unified_leave_without_parsing()  # Balance the enter call (nothing was pushed)
         created_placeholder: IRSchema = detection_result.placeholder_schema
         return created_placeholder
 
@@ -885,6 +906,20 @@ def _parse_schema(
                     )
 
             context.parsed_schemas[registration_key] = schema_ir
+
+            # A self-reference / cycle placeholder for this very schema may have been stored under the RAW name
+            # while it was in progress; for a name that is already its class name the line above has just replaced
+            # it, otherwise ("pet" vs "Pet") the stale stub would stay behind as a second, empty model.
+            if registration_key != schema_name:
+                stale = context.parsed_schemas.get(schema_name)
+                if (
+                    stale is not None
+                    and stale is not schema_ir
+                    and stale.name == schema_ir.name
+                    and (stale._is_circular_ref or stale._is_self_referential_stub)
+                    and not stale.properties
+                ):
+                    del context.parsed_schemas[schema_name]
 
         # Set generation_name and final_module_stem for schemas that will be generated as separate files
         # Skip for synthetic primitives (inline types) - they should remain without these attributes
